@@ -371,7 +371,7 @@ Definition value_ok (i : item) : Prop :=
   | None => True
   | Some t =>
     if kind_in (ty t) decoding_kinds
-    then val t = unicodesub (if kind_in (ty t) cleaning_kinds then cleanstring (snd i) else snd i)
+    then val t = (if kind_in (ty t) cleaning_kinds then unicodesub_string (snd i) else unicodesub (snd i))
     else val t = snd i
   end.
 
